@@ -40,7 +40,7 @@ func main() {
 	run.Rule("isolation: per-log hostile histories are generated while each log runs alone on a fresh witness (verdicts and final checkpoint recorded), then the same request lists are replayed in a PRNG interleaving on one shared witness; per log the verdict sequence and final stored bytes must be identical (legacy keys: byte equality; cosignature/v1: equality after removing timestamped lines), and after every step every stored checkpoint's first line must be the origin configured for the ID it is stored under. identity: from one generated YAML configuration the ID is observed at LogConfig.AsLogMap, config.NewLog, the bastion handler (recording witness), the distributor PUT path, the HTTP read API and a feeder's witness calls; duplicates must make omniwitness.Main fail before serving. evaluations = requests replayed + identity observations; nontrivial = distinct (part, logs, shared keys, store, origin shape)")
 	run.Assume("legacy Ed25519 witness signatures are deterministic, so identical histories give identical bytes")
 	run.Floor("interleaved_requests", 20000)
-	run.Floor("identity_origins", 200)
+	run.Floor("identity_origins", 120)
 	run.Floor("duplicate_configs_refused", 30)
 	run.Floor("main_started_without_duplicates", 5)
 	dir := run.Scratch()
